@@ -181,6 +181,10 @@ def plan_C19(seed, run, engine, tier="quick", entry=None):
         P._FORCED["entry"] = None
     degen = choice(rng, G.DEGEN_KINDS)
     prob = G.gen_problem(rng, e, degen=degen)
+    if prob["storage"] == "csc" and rng.random() < 0.5:
+        # how the degenerate structure is *stored* matters: explicit zeros, unsorted indices,
+        # 64-bit index arrays
+        prob["storage"] = choice(rng, ["csc_zeros", "csc_unsorted", "csc64"], p=[.5, .25, .25])
     solver = e[0]
     fi, p = prob["fi"], P._p(prob)
     gs = P._gscale(prob)
